@@ -24,7 +24,9 @@ UNITS = [src('base', 'src', 'ProblemDefinition.cpp'), src('base', 'src', 'Optimi
          src(G + 'informedtrees/bitstar/src/Vertex.cpp'), src(G + 'informedtrees/aitstar/src/Vertex.cpp'),
          src(G + 'informedtrees/eitstar/src/Vertex.cpp'), src(G + 'informedtrees/eitstar/src/State.cpp'), src('control/planners/sst/src/SST.cpp'),
          src('base', 'objectives', 'src', 'PathLengthOptimizationObjective.cpp'), src('base', 'objectives', 'src', 'StateCostIntegralObjective.cpp'),
-         src('base', 'objectives', 'src', 'MinimaxObjective.cpp')]
+         src('base', 'objectives', 'src', 'MinimaxObjective.cpp'), src('base', 'objectives', 'src', 'MechanicalWorkOptimizationObjective.cpp'),
+         src('base', 'objectives', 'src', 'MinimizeArrivalTime.cpp'), src('base', 'objectives', 'src', 'ControlDurationObjective.cpp'),
+         src('base', 'objectives', 'src', 'MaximizeMinClearanceObjective.cpp'), src('geometric', 'planners', 'rrt', 'src', 'VFRRT.cpp')]
 
 OO = 'ompl::base::OptimizationObjective::'
 
@@ -1681,6 +1683,105 @@ def r04q(rep, F, must, may):
     rep.require_count('R04q', 'functions that query the solution registry', n, 7)
 
 
+B_ = 'ompl::base::'
+SYMMETRIC_CALLS = ('distance', 'max', 'min', 'fmax', 'fmin', 'trapezoid', 'combineCosts', 'betterCost')
+
+
+def _canon(f, nid, ren, defs, depth=0):
+    """order-insensitive fingerprint of a side-effect-free expression; ren renames the two state parameters"""
+    n = f.strip(nid)
+    if n is None:
+        return '?'
+    k = n['k']
+    if k == 'DeclRefExpr':
+        kk = '%s#%d' % (n.get('name'), n.get('did'))
+        if kk in ren:
+            return ren[kk]
+        if kk in defs and depth < 6:
+            return _canon(f, defs[kk], ren, defs, depth + 1)
+        return n.get('q') or n.get('name')
+    if k in ('IntegerLiteral', 'FloatingLiteral', 'CXXBoolLiteralExpr'):
+        return repr(n.get('v'))
+    if k == 'CXXThisExpr':
+        return 'this'
+    if k == 'MemberExpr':
+        return (_canon(f, n['ch'][0], ren, defs, depth) if n['ch'] else 'this') + '.' + str(n.get('name'))
+    if k in ('BinaryOperator',):
+        a, b = _canon(f, n['ch'][0], ren, defs, depth), _canon(f, n['ch'][1], ren, defs, depth)
+        if n.get('op') in ('+', '*', '==', '!=', '&&', '||'):
+            a, b = sorted((a, b))
+        return '(%s %s %s)' % (a, n.get('op'), b)
+    if k == 'UnaryOperator':
+        return '(%s%s)' % (n.get('op'), _canon(f, n['ch'][0], ren, defs, depth))
+    if n.get('callee') is not None or k in ('CXXConstructExpr', 'CXXTemporaryObjectExpr', 'CXXFunctionalCastExpr'):
+        cs = [_canon(f, c, ren, defs, depth) for c in n['ch']]
+        short = (n.get('callee') or n.get('ctor') or k).split('::')[-1]
+        if short in SYMMETRIC_CALLS and len(cs) >= 2:
+            head, tail = (cs[:1], cs[1:]) if n['k'] == 'CXXMemberCallExpr' else ([], cs)
+            if short == 'trapezoid':
+                tail = sorted(tail[:2]) + tail[2:]
+            else:
+                tail = sorted(tail)
+            cs = head + tail
+        return '%s(%s)' % (short, ','.join(cs))
+    if k == 'ConditionalOperator':
+        return '(%s ? %s : %s)' % tuple(_canon(f, c, ren, defs, depth) for c in n['ch'])
+    return '%s(%s)' % (k, ','.join(_canon(f, c, ren, defs, depth) for c in n['ch'] if c))
+
+
+def r04s(rep, F):
+    rep.rule('R04s', 'an objective whose motion cost depends on the direction of the motion says so: for every OptimizationObjective subclass whose '
+                     'motionCost(s1, s2) is straight-line code (declarations and one return), the returned expression is compared with itself '
+                     'under exchange of the two state parameters, modulo commutative operators and callees that are symmetric by contract '
+                     '(distance in a symmetric space, max / min, trapezoid in its two costs).  If the two differ, the class (or a base below '
+                     'OptimizationObjective) overrides isSymmetric() to return false: the inherited answer speaks for the state space only, and '
+                     'RRT* re-uses the cost of the opposite edge whenever the flag is true, so stored solution costs stop being path costs.  '
+                     'Bodies with loops or branches are listed, not decided')
+    n = 0
+    for f in F.functions:
+        if not f.body or not f.name.endswith('::motionCost') or len(f.params) != 2 or not (f.record or '').startswith('ompl::base::'):
+            continue
+        if f.record not in F.subclasses(B_ + 'OptimizationObjective'):
+            continue
+        body = f.nodes[f.body]
+        stmts = [f.nodes[c] for c in body['ch'] if c]
+        if any(x['k'] not in ('DeclStmt', 'ReturnStmt') for x in stmts) or [x['k'] for x in stmts].count('ReturnStmt') != 1:
+            rep.undecided('R04s', f.name, 'direction-declared', 'motionCost has loops or branches: swap symmetry of the returned value is not decided syntactically')
+            continue
+        defs = {}
+        for x in stmts:
+            if x['k'] == 'DeclStmt':
+                for d in x.get('decls', []):
+                    if d.get('init'):
+                        defs['%s#%d' % (d['name'], d['did'])] = d['init']
+        ret = [x for x in stmts if x['k'] == 'ReturnStmt'][0]
+        p1, p2 = ('%s#%d' % (f.params[0]['name'], f.params[0]['did'])), ('%s#%d' % (f.params[1]['name'], f.params[1]['did']))
+        a = _canon(f, ret['ch'][0], {p1: 'A', p2: 'B'}, defs)
+        b = _canon(f, ret['ch'][0], {p1: 'B', p2: 'A'}, defs)
+        n += 1
+        if a == b:
+            rep.add('R04s', f.name, 'direction-declared', True, f.loc, 'the motion cost is symmetric under exchange of its two states')
+            continue
+        # asymmetric: some class from f.record up to (excluding) OptimizationObjective must override isSymmetric() with return false
+        chain, work = [], [f.record]
+        while work:
+            r_ = work.pop()
+            if r_ == B_ + 'OptimizationObjective' or r_ in chain:
+                continue
+            chain.append(r_)
+            rr = F.record(r_, required=False)
+            work.extend(rr['bases'] if rr else [])
+        ov = [g for r_ in chain for g in F.by_name.get(r_ + '::isSymmetric', []) if g.body]
+        says_false = any(any(x['k'] == 'ReturnStmt' and x['ch'] and (g.strip(x['ch'][0]) or {}).get('k') == 'CXXBoolLiteralExpr' and
+                             (g.strip(x['ch'][0]) or {}).get('v') in (False, 'false', 0) for x in g.walk()) for g in ov)
+        rep.add('R04s', f.name, 'direction-declared', says_false, f.loc,
+                'the motion cost depends on the direction and isSymmetric() returns false' if says_false else
+                'motionCost(s1, s2) is not symmetric under exchange of s1 and s2, but %s does not override isSymmetric() to return false: the '
+                'inherited answer is the state space\'s, and RRT* then re-uses the cost of the opposite edge -- stored costs are no longer '
+                'path costs' % f.record.split('::')[-1])
+    rep.require_count('R04s', 'objectives with a straight-line motion cost', n, 4)
+
+
 def run(rep):
     F = facts.load_units(UNITS)
     rep.units.update(UNITS)
@@ -1702,6 +1803,7 @@ def run(rep):
     from rules import c03, c15
     must, may = c03.add_summaries(F)
     r04q(rep, F, must, may)
+    r04s(rep, F)
     # R04r: the cost attached to a registered path is the cost of that path's vertex (C01's R01y under C04's id)
     from rules import c01_informed
     c01_informed.r01y(rep, F, rule='R04r')
